@@ -53,6 +53,16 @@ def run(ctx):
             for seq in itertools.product(tiny, repeat=3):
                 DC.run_history(ctx, attached, list(seq), [structure], tag, prelinked=pre); n += 1
             ctx.exhaustive.append('%s: all %d sequences of length 3 over %d operations' % (tag, n, len(tiny)))
+    # directed: the named style and the two style containers of the document - every way of putting the style before, after or in
+    # place of another child (insertBefore with a reference child is the one path that links the node after the document adopted it)
+    u0 = D.Universe(True); f = u0.free_ids
+    st, li, p2 = f[6], f[7], f[1]
+    for home in (u0.id_of(u0.doc.styles), u0.id_of(u0.doc.automaticstyles), u0.id_of(u0.doc.text)):
+        for hist in ([('append', home, li), ('insert', home, st, li)], [('append', home, li), ('append', home, p2), ('insert', home, st, p2)],
+                     [('append', home, st), ('insert', home, li, st)], [('append', home, li), ('insert', home, st, li), ('remove', home, st), ('insert', home, st, li)],
+                     [('append', home, li), ('append', home, st), ('insert', home, st, li)], [('insert', home, st, None), ('insert', home, li, st), ('remove', home, li)]):
+            DC.run_history(ctx, True, hist, [structure], 'directed-style')
+    ctx.exhaustive.append('directed histories: the named style inserted before / after / around another child of office:styles, office:automatic-styles, office:text')
     # random longer histories over the whole universe
     for k in range(150 if ctx.quick else 4000):
         attached = ctx.rng.random() < 0.6
